@@ -562,6 +562,9 @@ def _c10(ctx, ad, cfg, env, runner, rng, drv, mult):
         ctx.fail(ad.name, "generator_constant", f"{n} different keys gave the same instance",
                  {"env": ad.name, "config": cfg.cid, "seeds": seeds[:8]})
     ctx.sample({"env": ad.name, "config": cfg.cid, "instances": n, "distinct": len(distinct)})
+    # adapter-specific certificates that need to act on the implementation (e.g. play a solving episode built by the model)
+    if hasattr(ad, "instance_extra"):
+        ad.instance_extra(ctx, cfg, env, runner, rng, drv, seeds)
 
 
 # --------------------------------------------------------------------------------------
